@@ -26,7 +26,9 @@
 //!           <key.fee> <key.weight> <key.anc_fee> <key.anc_weight> <tie> <parents> <children>   -> ok   (slab order)
 //!       closure <id>        -> anc=<sorted calc_ancestors> desc=<sorted calc_descendants>
 //!       hyp                 -> links=<0|1> agg=<0|1> key=<0|1>   (the theorems' hypotheses on this pool)
-//!       select <sl> <cl>    -> <ids in output order|-> size=<n> cycles=<n>
+//!       select <sl> <cl>    -> <ids in output order|-> size=<n> cycles=<n>     (when hyp is all 1)
+//!       select-stale <sl> <cl> -> stale      (when hyp fails: the real result then depends on HashSet
+//!                                             iteration order; only the oracle judges such probes)
 //!     (`pool`, `ent`, `closure`, `hyp` lines are derived data: ignored when replayed, `select` regenerates them)
 //!   weight <size> <cycles>  -> get_transaction_weight
 //!
@@ -562,8 +564,18 @@ fn do_select(w: &mut World, out: &mut Out, sl: u64, cl: u64) {
     }
     let sel_ids: Vec<usize> = r.sel.iter().map(|(id, _, _)| tid(id)).collect();
     let ans = format!("{} size={} cycles={}", if sel_ids.is_empty() { "-".to_string() } else { sel_ids.iter().map(|x| x.to_string()).collect::<Vec<_>>().join(",") }, r.size, r.cycles);
-    out.op(&format!("select {} {}", sl, cl), &ans);
-    out.count("select");
+    // Exact comparison is meaningful only when the dumped pool satisfies the hypotheses of the
+    // theorems (consistent links, maintained aggregates = recomputation, stored keys current): on a
+    // stale pool (C11's F3) the real selector's result depends on HashSet iteration order (unstable
+    // sort by a stale ancestors_count, slab slots of modified entries), so no deterministic model can
+    // match it. Such probes are compared only as `stale`; the oracle below still judges them.
+    if links_ok && agg_ok && key_ok {
+        out.op(&format!("select {} {}", sl, cl), &ans);
+        out.count("select");
+    } else {
+        out.op(&format!("select-stale {} {}", sl, cl), "stale");
+        out.count("select-stale");
+    }
     // --- oracle on the implementation's selection
     let d = format!("limits=({sl},{cl}) pool={} proposed={} selected={:?}", r.dump.entries.len(), n_prop, sel_ids);
     let mut seen: HashSet<ProposalShortId> = HashSet::new();
@@ -722,7 +734,7 @@ fn exec(w: &mut Option<World>, out: &mut Out, base: &Path, line: &str) {
                     }
                     out.op(line, "ok");
                 }
-                "select" => {
+                "select" | "select-stale" => {
                     let n = nums(&ts[1..]);
                     do_select(w, out, n[0], n[1]);
                 }
